@@ -188,6 +188,26 @@ func Resume(
 		if err != nil {
 			return err
 		}
+
+		// The section must lie entirely within the file: an interrupted Put may have left a
+		// partial section at the end, which must not be indexed nor written after.
+		remaining := int64(length) - int64(n)
+		if remaining < 0 {
+			return fmt.Errorf("section at offset %d is shorter than its CID", sectionOffset)
+		}
+		if remaining > 0 {
+			pos, err := v1r.Seek(0, io.SeekCurrent)
+			if err != nil {
+				return err
+			}
+			var last [1]byte
+			if _, err := v1r.ReadAt(last[:], pos+remaining-1); err != nil {
+				if err == io.EOF {
+					err = io.ErrUnexpectedEOF
+				}
+				return fmt.Errorf("incomplete section at offset %d: %w", sectionOffset, err)
+			}
+		}
 		idx.InsertNoReplace(c, uint64(sectionOffset))
 
 		// Seek to the next section by skipping the block.
